@@ -68,12 +68,15 @@ PROVED = {
          "and header validation requests at most 16 bytes of buffer. Real heap usage (old+new buffer during growth, payload copies, queue) is an "
          "implementation-level oracle measured by the harness' counting allocator: partial by nature.",
          "The allocator and Vec/Box growth are not modelled; the measured bound 3*max(m, cap, 16)+4*len+64KiB is an oracle, not a theorem. "),
- "C13": ("Theorem C13_tolerated_kinds_impossible: for every configuration, input and next()/try_recover() sequence, no reported error belongs to a "
-         "tolerated class and, with unknown ids not tolerated, no successful item is or contains a raw tag (over whole runs of the abstract reader; "
-         "transferred to the buffered machine for every chunking/capacity by C04_refines); header checks can only produce errors of non-tolerated "
-         "classes or the never-tolerated kinds; the size limit is enforced under every tolerance setting. PARTIAL: monotonicity (strict items are a "
-         "prefix of every more tolerant parse) and the exact error kind/offset per injected fault are covered by the correspondence groups over all 8 "
-         "tolerance subsets, not proved.", ""),
+ "C13": ("Theorems: C13_tolerated_kinds_impossible — for every configuration, input and next()/try_recover() sequence, no reported error belongs to a "
+         "tolerated class and, with unknown ids not tolerated, no successful item is or contains a raw tag (abstract reader; buffered machine for every "
+         "chunking/capacity by C04_refines); C13_header_error_kinds — every header error carries the offending element's offset and its kind is exactly "
+         "that of the first failing check (incomplete id/size: UnexpectedEof; malformed size: InvalidTagData; unknown id: InvalidTagId; chain mismatch: "
+         "HierarchyError; overrun of an enclosing known-size master: OversizedChildElement; above the limit: InvalidTagSize), each only when its class is "
+         "not tolerated; the size limit is enforced under every tolerance setting; C13_strict_is_prefix (Proofs/Monotone.v) — for inputs that start at a "
+         "root element the items of the strict parse (with offsets) are a prefix of those of ANY more tolerant parse of the same bytes, for every buffered "
+         "set (nested buffered masters included) and, via C04_refines, every capacity and chunking; the counterexample for mid-document starts is "
+         "exhibited (C13_not_at_root_ex). Model note: with buffered masters the theorem needs bytes < 256 (true of u8).", ""),
  "C03": ("Theorems: per tag (C03_tag_mirrors_bytes, every configuration/state/input): the item's offset is the cursor, the id decoded there is the item's "
          "id, the input splits as header ++ payload ++ rest with the cursor advancing exactly over them, a master's payload part is empty, an element's "
          "value is the documented decoding of its payload. Run level (Proofs/Tiling.v): C03_run_tiles — for every configuration with nothing buffered, "
